@@ -323,7 +323,7 @@ impl Gen {
                     if rng.chance(0.3) {
                         return Op::AddColNull { name, ty: *rng.pick(&[Ty::I64, Ty::Str, Ty::F64]) };
                     }
-                    let from = if st.col("v").is_some() && rng.chance(0.6) { "v" } else { "k" };
+                    let from = if st.col("v").map(|i| st.cols[i].ty == Ty::I64).unwrap_or(false) && rng.chance(0.6) { "v" } else { "k" };
                     return Op::AddColSql { name, ty: Ty::I64, from: from.into(), add: rng.range(-2, 9) };
                 }
                 11 => {
@@ -336,13 +336,22 @@ impl Gen {
                     let c = if !added.is_empty() && rng.chance(0.7) { **rng.pick(&added) } else { *rng.pick(&cands) };
                     return Op::DropCol { name: c.name.clone() };
                 }
-                12 => {
+                12 if rng.chance(0.55) => {
                     let cands: Vec<&ColDef> = st.cols.iter().filter(|c| c.name.starts_with('c')).collect();
                     if cands.is_empty() {
                         continue;
                     }
                     let c = *rng.pick(&cands);
                     return Op::RenameCol { from: c.name.clone(), to: format!("d{}", &c.name[1..]) };
+                }
+                12 => {
+                    // cast an unindexed BIGINT column (not the key / image columns) in place
+                    let cands: Vec<&ColDef> = st.cols.iter().filter(|c| matches!(c.ty, Ty::I64 | Ty::I32) && c.name != "k" && c.name != "img" && !st.indices.iter().any(|i| i.column == c.name)).collect();
+                    if cands.is_empty() {
+                        continue;
+                    }
+                    let c = *rng.pick(&cands);
+                    return Op::CastCol { name: c.name.clone(), to: if c.ty == Ty::I64 { Ty::I32 } else { Ty::I64 } };
                 }
                 13 => {
                     let key = format!("cfg{}", rng.below(3));
@@ -371,7 +380,7 @@ pub fn prop_for_op(op: &Op) -> &'static str {
         Op::Append { .. } | Op::Overwrite { .. } => "C11",
         Op::Delete { .. } | Op::Update { .. } | Op::Merge { .. } => "C12",
         Op::Compact { .. } => "C13",
-        Op::AddColSql { .. } | Op::AddColNull { .. } | Op::DropCol { .. } | Op::RenameCol { .. } => "C14",
+        Op::AddColSql { .. } | Op::AddColNull { .. } | Op::DropCol { .. } | Op::RenameCol { .. } | Op::CastCol { .. } => "C14",
         Op::Restore { .. } => "C07",
         Op::CreateIndex { .. } | Op::DropIndex { .. } | Op::OptimizeIndices { .. } => "C19",
         Op::CreateVectorIndex { .. } => "C22",
@@ -1195,6 +1204,16 @@ pub async fn run_seq(cfg: RunCfg) -> RunResult {
         .await;
         if let Err(p) = fin {
             r.res.violate("C06", "panic", "panic-final", nsteps, format!("panic in final checks: {}", p));
+        }
+        if r.recreated {
+            // same attribution as inside the loop: after a drop-and-recreate in one session stale
+            // cache entries keyed by (uri, version) explain whatever the final checks see
+            for v in r.res.violations.iter_mut() {
+                if !v.sig.ends_with(":after-recreate") {
+                    v.sig = format!("{}:after-recreate", v.sig);
+                    v.prop = "C38".into();
+                }
+            }
         }
     }
     r.res.distinct_states = state_hashes.len() as u64;
